@@ -11,6 +11,8 @@ import Hy.Model.BbrProfiles
 import Hy.Proofs.BbrFilter
 import Hy.Proofs.BbrSampler
 import Hy.Gen.C12Sites
+import Hy.Gen.TransRing
+import Hy.Gen.TransBbr
 set_option linter.unusedSimpArgs false
 namespace Hy.Props.C12
 open Hy Hy.Ring Hy.Pnq
@@ -396,5 +398,197 @@ example : Sampler.bandwidthFromDelta 125000 100000000 = .ok 10000000 := by decid
     A0 candidates has no bound proved (one is pushed per aggregation epoch start, they are pruned
     only when an acked packet's sample chooses its A0 point) — its maximum is MEASURED by the harness
     (evidence note `max_a0_candidates`). -/
+
+set_option linter.unusedSimpArgs false
+
+/-! ### ringbuffer.go as TRANSLATED from the current Go source equals the model (`Hy.Ring`)
+
+`Hy.Gen.TransRing.*` is regenerated on every run by `verifgen translate` from the text of
+`Len`, `Empty`, `Offset`, `Front`, `Back` in core/internal/congestion/bbr/ringbuffer.go (go/ast → Lean:
+`int` = int64 wrap-around, Go's truncated `%`, the division-by-zero and the explicit `panic(...)`
+as `Res.panic`; `r.full` is a `Bool` parameter, `len(r.ring)` the parameter `r_ring_len`; a result
+`&r.ring[i]` is translated as the index `i` after Go's bounds check against `len(r.ring)`).
+The theorems hold for EVERY well-formed buffer below 2^62 slots and every int64 index (negative
+ones included): `Hy.Ring`'s `len`, `empty`, `offsetPos`, `front`, `back` — which the queue theorems
+above are about — ARE the repository's current index arithmetic. -/
+
+theorem ring_empty_translation_eq {α : Type} (r : RB α) :
+    Gen.TransRing.RingBuffer_Empty r.full r.head r.tail = r.empty := by
+  unfold Gen.TransRing.RingBuffer_Empty RB.empty
+  have e : ((r.head : Int) = (r.tail : Int)) ↔ r.head = r.tail := by omega
+  have e' : ((r.tail : Int) = (r.head : Int)) ↔ r.head = r.tail := by omega
+  by_cases h : r.head = r.tail <;> cases r.full <;> simp [h, e, e']
+
+theorem ring_len_translation_eq {α : Type} (r : RB α) (hwf : r.WF) (hc : r.cap < 4611686018427387904) :
+    Gen.TransRing.RingBuffer_Len r.full r.head r.cap r.tail = (r.len : Int) := by
+  have hh := hwf.hh; have ht := hwf.ht; have h0 := hwf.h0
+  unfold Gen.TransRing.RingBuffer_Len RB.len
+  by_cases hf : r.full = true
+  · simp only [hf, ↓reduceIte]
+  · have hf' : r.full = false := by simpa using hf
+    simp only [hf', Bool.false_eq_true, ↓reduceIte]
+    have hb : r.head ≤ r.cap ∧ r.tail ≤ r.cap := by
+      rcases Nat.eq_zero_or_pos r.cap with hz | hp
+      · have := h0 hz; omega
+      · have := hh hp; have := ht hp; omega
+    by_cases hth : r.tail ≥ r.head
+    · rw [if_pos (by omega), if_pos hth]
+      simp (disch := omega) only [GoInt.i64_of_range]; omega
+    · rw [if_neg (by omega), if_neg hth]
+      simp (disch := omega) only [GoInt.i64_of_range]; omega
+
+theorem ring_offset_translation_eq {α : Type} (r : RB α) (hwf : r.WF) (hc : r.cap < 4611686018427387904) (i : Int)
+    (hi : -9223372036854775808 ≤ i) :
+    Gen.TransRing.RingBuffer_Offset r.full r.head r.cap r.tail i
+      = (r.offsetPos i).bind (fun p => .ok (p : Int)) := by
+  have hh := hwf.hh; have h0 := hwf.h0
+  unfold Gen.TransRing.RingBuffer_Offset RB.offsetPos
+  rw [ring_empty_translation_eq, ring_len_translation_eq r hwf hc]
+  by_cases he : r.empty = true
+  · simp [he]
+  · by_cases hge : i ≥ (r.len : Int)
+    · simp [he, hge]
+    · have hcap : 0 < r.cap := by
+        rcases Nat.eq_zero_or_pos r.cap with hz | hp
+        · exfalso; have := h0 hz; simp [RB.empty, this] at he
+        · exact hp
+      have hlen : r.len ≤ r.cap := by
+        have := hh hcap; have := hwf.ht hcap
+        unfold RB.len; split
+        · omega
+        · split <;> omega
+      have := hh hcap
+      have hle : ¬ ((r.len : Int) ≤ i) := by omega
+      simp only [he, hge, hle, Bool.false_eq_true, false_or, or_false, ↓reduceIte, Bool.or_false, decide_false, ge_iff_le]
+      simp (disch := omega) only [GoInt.i64_of_range]
+      go_ac_norm
+      generalize Int.tmod _ _ = off
+      have hc0 : ¬ ((r.cap : Int) = 0) := by omega
+      simp only [hc0, ne_eq, not_false_eq_true, not_true_eq_false, ↓reduceIte]
+      by_cases hoff : 0 ≤ off ∧ off < (r.cap : Int)
+      · rw [if_neg (by omega), if_pos (by omega)]
+        simp only [Res.bind_ok, Res.ok.injEq]; omega
+      · rw [if_pos hoff, if_neg (by omega)]; rfl
+
+theorem ring_idx_ge {α : Type} {l : List α} {j : Nat} (h : l.length ≤ j) : Res.idx l j = Res.panic := by
+  unfold Res.idx; rw [List.getElem?_eq_none h]
+
+theorem ring_front_translation_eq {α : Type} (r : RB α) :
+    r.front = (Gen.TransRing.RingBuffer_Front r.full r.head r.cap r.tail).bind (fun p => r.slot p.toNat) := by
+  unfold Gen.TransRing.RingBuffer_Front RB.front
+  rw [ring_empty_translation_eq]
+  by_cases he : r.empty = true
+  · simp [he]
+  · simp only [he, Bool.false_eq_true, ↓reduceIte]
+    by_cases hb : r.head < r.cap
+    · rw [if_neg (by omega)]; simp
+    · rw [if_pos (by omega)]
+      simp only [Res.bind_panic, RB.slot]
+      exact ring_idx_ge (by unfold RB.cap at hb; omega)
+
+theorem ring_back_translation_eq {α : Type} (r : RB α) (hwf : r.WF) (hc : r.cap < 4611686018427387904) :
+    r.back = (Gen.TransRing.RingBuffer_Back r.full r.head r.cap r.tail).bind (fun p => r.slot p.toNat) := by
+  unfold Gen.TransRing.RingBuffer_Back RB.back RB.offset
+  rw [ring_empty_translation_eq, ring_len_translation_eq r hwf hc]
+  by_cases he : r.empty = true
+  · simp [he]
+  · simp only [he, Bool.false_eq_true, ↓reduceIte]
+    have hlen : r.len ≤ r.cap := by
+      have hh := hwf.hh; have ht := hwf.ht; have h0 := hwf.h0
+      unfold RB.len
+      rcases Nat.eq_zero_or_pos r.cap with hz | hp
+      · have := h0 hz; split
+        · omega
+        · split <;> omega
+      · have := hh hp; have := ht hp; split
+        · omega
+        · split <;> omega
+    simp (disch := omega) only [GoInt.i64_of_range]
+    rw [ring_offset_translation_eq r hwf hc _ (by omega)]
+    cases r.offsetPos ((r.len : Int) - 1) <;> simp
+
+example : Gen.TransRing.RingBuffer_Offset false 3 4 1 (-1) = .ok 2 := by decide
+example : Gen.TransRing.RingBuffer_Offset false 3 4 1 2 = .panic := by decide
+example : Gen.TransRing.RingBuffer_Back true 2 4 2 = .ok 1 := by decide
+
+/-! ### the integer-only helpers of the BBR sender as TRANSLATED from the current Go source
+
+`Hy.Gen.TransBbr.*` is regenerated on every run by `verifgen translate` from the text of
+`scaleByteWindowForDatagramSize`, `minCongestionWindowForMaxDatagramSize` (bbr_sender.go) and
+`BandwidthFromDelta` (bandwidth.go): int64 ↔ uint64 conversions, the uint64 product and division and
+the division-by-zero panic explicit; `minCongestionWindowPackets`, `BytesPerSecond`, `time.Second`
+resolved to their current values.  `bbr_bandwidthFromDelta_translation_eq` holds for ALL integers (the
+sampler's model wraps like the code); the `BbrCore` versions (naturals, no wrap) agree wherever
+nothing overflows — the stated ranges.  The rest of bbr_sender.go is float64 / table / struct code
+and stays outside the translator's subset. -/
+
+theorem bbr_minCwnd_translation_eq (n : Nat) (h : n < 2305843009213693952) :
+    Gen.TransBbr.minCongestionWindowForMaxDatagramSize n = ((Bbr.minPk * n : Nat) : Int) := by
+  have e : Bbr.minPk = 4 := by decide
+  unfold Gen.TransBbr.minCongestionWindowForMaxDatagramSize
+  rw [e]
+  simp (disch := omega) only [GoInt.i64_of_range]
+  go_ac_norm
+  omega
+
+/-- all-integer version: the sampler's model wraps exactly like the code -/
+theorem bbr_bandwidthFromDelta_translation_eq (bytes delta : Int) :
+    Gen.TransBbr.BandwidthFromDelta bytes delta
+      = (Sampler.bandwidthFromDelta bytes delta).bind (fun r => .ok (r : Int)) := by
+  unfold Gen.TransBbr.BandwidthFromDelta Sampler.bandwidthFromDelta
+  have hu : ∀ x : Int, ((Sampler.u64 x : Nat) : Int) = GoInt.u64 x := by
+    intro x; unfold Sampler.u64 GoInt.u64 Sampler.two64; omega
+  by_cases hd : Sampler.u64 delta = 0
+  · have : GoInt.u64 delta = 0 := by rw [← hu, hd]; rfl
+    simp [hd, this]
+  · have : ¬ GoInt.u64 delta = 0 := by rw [← hu]; omega
+    simp only [hd, this, ne_eq, not_false_eq_true, not_true_eq_false, ↓reduceIte, Res.bind_ok, Res.ok.injEq, hu]
+    simp only [Int.natCast_ediv, hu] <;> go_ac_rfl
+
+/-- the core model (naturals, no wrap) agrees wherever nothing overflows -/
+theorem bbr_bandwidthFromDelta_core_translation_eq (bytes delta : Nat)
+    (hb : bytes * 1000000000 < 18446744073709551616) (hd : delta < 9223372036854775808)
+    (hr : bytes * 1000000000 / delta * 8 < 18446744073709551616) :
+    Gen.TransBbr.BandwidthFromDelta bytes delta
+      = (Bbr.bandwidthFromDelta bytes delta).bind (fun r => .ok (r : Int)) := by
+  unfold Gen.TransBbr.BandwidthFromDelta Bbr.bandwidthFromDelta
+  have hr' : 1000000000 * bytes / delta * 8 < 18446744073709551616 := by rw [Nat.mul_comm 1000000000 bytes]; exact hr
+  have hq : bytes * 1000000000 / delta < 18446744073709551616 := by omega
+  have hq' : 1000000000 * bytes / delta < 18446744073709551616 := by omega
+  have c1 : (1000000000 : Int) = ((1000000000 : Nat) : Int) := rfl
+  have c8 : (8 : Int) = ((8 : Nat) : Int) := rfl
+  by_cases hz : delta = 0
+  · subst hz; simp [GoInt.u64]
+  · have hz' : ¬ (GoInt.u64 (delta : Int) = 0) := by rw [GoInt.u64_natCast (by omega)]; omega
+    simp only [hz, hz', ne_eq, not_false_eq_true, not_true_eq_false, ↓reduceIte, Res.bind_ok, Res.ok.injEq]
+    rw [c1, c8]
+    simp (disch := omega) only [← Int.natCast_mul, ← Int.natCast_ediv, GoInt.u64_natCast]
+    try simp only [Nat.mul_comm 1000000000 bytes, Nat.mul_comm 8 _]
+
+theorem bbr_scaleWnd_translation_eq (w old new : Nat)
+    (hw : w < 9223372036854775808) (ho : old < 9223372036854775808) (hn : new < 9223372036854775808)
+    (hp : w * new < 9223372036854775808) :
+    Gen.TransBbr.scaleByteWindowForDatagramSize w old new
+      = (Bbr.scaleWnd w old new).bind (fun r => .ok (r : Int)) := by
+  unfold Gen.TransBbr.scaleByteWindowForDatagramSize Bbr.scaleWnd
+  have hp' : new * w < 9223372036854775808 := by rw [Nat.mul_comm]; exact hp
+  have hq : w * new / old < 9223372036854775808 := Nat.lt_of_le_of_lt (Nat.div_le_self _ _) hp
+  have hq' : new * w / old < 9223372036854775808 := Nat.lt_of_le_of_lt (Nat.div_le_self _ _) hp'
+  have eo : ((old : Int) = new ↔ old = new) ∧ ((new : Int) = old ↔ old = new) := by omega
+  by_cases he : old = new
+  · simp [he]
+  · by_cases hz : old = 0
+    · subst hz
+      have hn0 : ¬ (0 = new) := he
+      simp [hn0, eo, he, GoInt.u64]
+      all_goals omega
+    · have hz' : ¬ (GoInt.u64 (old : Int) = 0) := by rw [GoInt.u64_natCast (by omega)]; omega
+      simp only [he, eo, hz, hz', ne_eq, not_false_eq_true, not_true_eq_false, ↓reduceIte, Res.bind_ok, Res.ok.injEq]
+      simp (disch := omega) only [← Int.natCast_mul, ← Int.natCast_ediv, GoInt.u64_natCast, GoInt.i64_natCast]
+      try simp only [Nat.mul_comm new w]
+
+example : Gen.TransBbr.scaleByteWindowForDatagramSize 12800 1280 1452 = .ok 14520 := by decide
+example : Gen.TransBbr.scaleByteWindowForDatagramSize 12800 0 1452 = .panic := by decide
+example : Gen.TransBbr.BandwidthFromDelta 1280 1000000 = .ok 10240000 := by decide
 
 end Hy.Props.C12
